@@ -96,7 +96,9 @@ func propDefs() map[string]propDef {
 			[]string{`^ensures:(okall|errall|prefix)`, `^assert_at:`, `^inv-`, `^pre:`, safetyRe},
 			all,
 			[]string{`^ensures:(inv|frame)`, `^inv-`},
-			[]string{`^ensures:(inv|frame)`, `^inv-`})), syncmap...),
+			[]string{`^ensures:(inv|frame)`, `^inv-`})), append(syncmap,
+			// the PID a login is correlated by is the PID field of its syslog record (delivery link, C07's PID clause)
+			u("ingesters/syslog.(*SyslogIngester).ParseSyslogMessage", `^ensures:pipe`, safetyRe))...),
 		Assume: []string{"history assumption of the property: each sshd PID logs in once and PIDs/session IDs are not reused inside the history (reuse is C09); the invariant itself is proved without it",
 			"event.Process.PID is the PID the kernel logged (go-libaudit aucoalesce, dependency)"},
 		Explain: "data-structure invariant TrackerInv (bound login has the session's PID, parked login is filed under its PID, srcPID equals the PID of the LOGIN record that opened the session (ghost g_opened), users distinct) proved inductive over the four public operations from an arbitrary invariant-satisfying state — hence for every history, any number of sessions and PIDs, any placement of cleanup; every written event is asserted at its write site to render the audit event with the identity of the session's own login (ghost provenance out[i].by / out[i].src); postconditions: every event appended by RemoteLogin carries rul's identity and g_opened[auditId] == rul.PID, every event appended by AuditdEvent carries the identity of the login bound to event.Session whose PID equals g_opened[event.Session]",
@@ -197,6 +199,11 @@ func propDefs() map[string]propDef {
 		Units: []unit{u("internal/common.IsNamedPipe"), u("cmd.RunNamedPipe$3"), u("cmd.RunNamedPipe$4"), u("cmd.RunNamedPipe$5"), u("main.main"), u("main.mainWithError"),
 			u("ingesters/namedpipe.(*NamedPipeIngester).Ingest", `^ensures:(nonnil|cberr|rderr)`, `^blocks:`), u("ingesters/auditlog.(*AuditLogIngester).Ingest", `^ensures:`, `^blocks:`, `^pre:`),
 			u("ingesters/syslog.(*SyslogIngester).Ingest", `^ensures:`, `^blocks:`, `^pre:`), u("ingesters/auditlog.(*AuditLogIngester).Process", `^blocks:`, `^ensures:`),
+			// the callbacks handed to the pipe ingesters: a failure inside them (event write) must come back as an error
+			// (the sshd chain below Process is pulled in by the dependency closure, whole contracts, incl. the werr clauses)
+			u("ingesters/syslog.(*SyslogIngester).Process", `^ensures:`, `^blocks:`),
+			u(st+"(*sessionTracker).RemoteLogin", `^ensures:(werr|err|invalid)`), u(st+"(*sessionTracker).AuditdEvent", `^ensures:(werr|err|badpid)`),
+			u("processors/auditd.(*reassemblerCB).ReassemblyComplete", `^ensures:`, `^blocks:`),
 			u("processors/auditd.(*Auditd).Read", `^ensures:nonnil`, `^blocks:`, `^selects:`, `^assert_at:NewReassembler`), u("processors/auditd.parseAuditLogs", `^ensures:(nonnil|cause)`, `^blocks:`)},
 		Structural: []string{"runnamedpipe-wiring"},
 		Assume: []string{"errgroup semantics: the first non-nil worker error cancels the group context and is returned by Wait (dependency)",
@@ -232,11 +239,13 @@ func propDefs() map[string]propDef {
 	}
 	m["C06"] = propDef{ID: "C06", Level: "proof",
 		Lemmas: []lemmaUnit{{Name: "sshd-formats", Args: []string{"C06"}}},
-		Units: sshdUnits(
+		Units: append(sshdUnits(
 			[]string{`^ensures:(fields|match|only|one|err)$`, `^pre:`},
 			[]string{`^ensures:(fields|certdata|match|only|one|err)$`, `^pre:`},
 			[]string{`^ensures:(event|outcome|one)$`, `^pre:`},
 			[]string{`^ensures:(event|one)$`, `^pre:`, `^frame:`}),
+			// delivery link (as in C17): the message reaches the processor with its internal spacing intact
+			u("ingesters/syslog.(*SyslogIngester).ParseSyslogMessage", `^ensures:pipe`, safetyRe), u("ingesters/syslog.(*SyslogIngester).Process", `^ensures:(direct|once)`)),
 		Explain: "(i) code-level postconditions of every handler: on a match exactly one event whose fields equal named capture groups / constants, outcome, component, PID, node name, machine ID, timestamp; (ii) the dispatch table read from ProcessEntry/userTypeLogAuditFn; (iii) per message format of the oracle specs/sshd_formats.json, regular-language lemmas over the regexp contracts derived from the current pattern literals: every printed line reaches its handler, matches its pattern, and group k is exactly field k",
 	}
 	m["C07"] = propDef{ID: "C07", Level: "proof",
